@@ -458,10 +458,9 @@ fn check_flags(ctx: &Ctx, st: &mut Stats) {
 
 pub fn run(ctx: Ctx) -> i32 {
     if let Some(case) = load_replay(&ctx) {
-        let text = case["spec"].as_str().unwrap_or("");
-        let r = LD::from_str(text);
-        ctx.note(&format!("replay: from_str gives {:?}", r.as_ref().map(|ld| ld.iter_rules().map(|r| (r.name().map(|x| x.to_string()), r.name_span(), r.re_str().to_string())).collect::<Vec<_>>()).map_err(|e| e.iter().map(|x| x.to_string()).collect::<Vec<_>>())));
-        return ctx.finish(json!({"states":1,"transitions":1,"traces_validated_against_impl":1,"samples":[case]}), &[], false);
+        // the whole exploration takes under a second: replay = run it again and keep the
+        // violations of the stored case (same specification text, part and input)
+        ctx.replay_only(&["spec", "part", "input"], &case);
     }
     let max_atoms = if ctx.quick() { 2 } else { 3 };
     let inputs = strings(&DEN_ALPHABET, 3);
